@@ -1,4 +1,4 @@
-import CvxVerif.Model.CertCheck
+import CvxVerif.Model.CertCheckNL
 import CvxVerif.Model.Proto
 open CvxVerif CvxVerif.Cert CvxVerif.Proto
 
@@ -23,6 +23,7 @@ def kv (ws : List String) (k : String) : Option String :=
 structure DS where
   p : Option Problem := none
   P : List (List Rat) := []
+  quads : List Quad := []
 
 def getVec (ws : List String) (k : String) : Option (List Rat) := (kv ws k).bind parseVec
 
@@ -33,7 +34,7 @@ def stepLine (d : DS) (line : String) : DS × String :=
     match (kv ws "dims").bind parseDims, getVec ws "c", (kv ws "G").bind parseCols, getVec ws "h",
           (kv ws "A").bind parseCols, getVec ws "b" with
     | some dm, some c, some G, some h, some A, some b =>
-      ({ p := some ⟨dm, c, G, h, A, b⟩, P := ((kv ws "P").bind parseCols).getD [] }, "ok")
+      ({ p := some ⟨dm, c, G, h, A, b⟩, P := ((kv ws "P").bind parseCols).getD [], quads := [] }, "ok")
     | _, _, _, _, _, _ => (d, "bad-op")
   | some "optimal" =>
     match d.p, getVec ws "x", getVec ws "s", getVec ws "y", getVec ws "z", getVec ws "tol" with
@@ -60,6 +61,22 @@ def stepLine (d : DS) (line : String) : DS × String :=
       let r2 := matVec p.A x p.b.length
       (d, s!"ok={dinfOk p x s ft eps} sIn={inCone p.d s} t={showRat (dot p.c x)} rz2={showRat (sdot p.d r1 r1)} ry2={showRat (dot r2 r2)} h2={showRat (sdot p.d p.h p.h)} b2={showRat (dot p.b p.b)}")
     | _, _, _, _ => (d, "bad-op")
+  | some "quad" =>
+    match (kv ws "Q").bind parseCols, getVec ws "q", (kv ws "r").bind parseRat with
+    | some Q, some q, some r => ({ d with quads := d.quads ++ [⟨Q, q, r⟩] }, "ok")
+    | _, _, _ => (d, "bad-op")
+  | some "optimalcpl" =>
+    match d.p, getVec ws "x0", getVec ws "x", getVec ws "snl", getVec ws "sl", getVec ws "y", getVec ws "znl", getVec ws "zl", getVec ws "tol" with
+    | some p, some x0, some x, some snl, some sl, some y, some znl, some zl, some [ft, at_, rt] =>
+      let r := residualsCpl p d.quads x0 x snl sl y znl zl
+      (d, s!"ok={optimalOkCpl p d.quads x0 x snl sl y znl zl ft at_ rt} slIn={inCone p.d sl} zlIn={inCone p.d zl} rx2={showRat r.rx2} ry2={showRat r.ry2} rznl2={showRat r.rznl2} rzl2={showRat r.rzl2} pres02={showRat r.pres02} dres02={showRat r.dres02} gap={showRat r.gap} pcost={showRat r.pcost} dcost={showRat r.dcost}")
+    | _, _, _, _, _, _, _, _, _ => (d, "bad-op")
+  | some "optimalcp" =>
+    match d.p, d.quads, getVec ws "x0", getVec ws "x", getVec ws "snl", getVec ws "sl", getVec ws "y", getVec ws "znl", getVec ws "zl" with
+    | some p, f0 :: fs, some x0, some x, some snl, some sl, some y, some znl, some zl =>
+      let r := residualsCp p f0 fs x0 x snl sl y znl zl
+      (d, s!"ok=true slIn={inCone p.d sl} zlIn={inCone p.d zl} rx2={showRat r.rx2} ry2={showRat r.ry2} rznl2={showRat r.rznl2} rzl2={showRat r.rzl2} pres02={showRat r.pres02} dres02={showRat r.dres02} gap={showRat r.gap} pcost={showRat r.pcost} dcost={showRat r.dcost}")
+    | _, _, _, _, _, _, _, _, _ => (d, "bad-op")
   | some "incone" =>
     match (kv ws "dims").bind parseDims, getVec ws "v" with
     | some dm, some v => (d, s!"{inCone dm v}")
